@@ -8,6 +8,7 @@ pub mod c05;
 pub mod c06;
 pub mod c06_kill;
 pub mod c07;
+pub mod c08;
 pub mod c09;
 pub mod c10;
 pub mod c11;
@@ -30,6 +31,7 @@ pub fn plan_for(id: &str) -> Option<Plan> {
         "C05" => c05::plan(),
         "C06" => c06::plan(),
         "C07" => c07::plan(),
+        "C08" => c08::plan(),
         "C09" => c09::plan(),
         "C10" => c10::plan(),
         "C11" => c11::plan(),
@@ -52,6 +54,7 @@ pub fn shard_for(id: &str, ctx: &Ctx) -> Option<Shard> {
         "C05" => c05::shard(ctx),
         "C06" => c06::shard(ctx),
         "C07" => c07::shard(ctx),
+        "C08" => c08::shard(ctx),
         "C09" => c09::shard(ctx),
         "C10" => c10::shard(ctx),
         "C11" => c11::shard(ctx),
